@@ -45,6 +45,9 @@ func vselTerm(v *parser.VectorSelector) string {
 	if v.Anchored || v.Smoothed {
 		panic(unmodelled{"anchored/smoothed"})
 	}
+	if v.OriginalOffsetExpr != nil {
+		panic(unmodelled{"duration expression"})
+	}
 	named := v.Name != ""
 	dup, nonEmpty := false, false
 	ms := v.LabelMatchers
@@ -122,6 +125,9 @@ func term(e parser.Expr) string {
 		}
 		return fmt.Sprintf("(EMat %s %s)", nodeID(n), vselTerm(n.VectorSelector.(*parser.VectorSelector)))
 	case *parser.SubqueryExpr:
+		if n.RangeExpr != nil || n.StepExpr != nil || n.OriginalOffsetExpr != nil {
+			panic(unmodelled{"duration expression"})
+		}
 		return fmt.Sprintf("(ESub %s %s %s)", nodeID(n), b(n.Timestamp != nil || n.StartOrEnd != 0), term(n.Expr))
 	case *parser.ParenExpr:
 		return "(EParen " + term(n.Expr) + ")"
@@ -198,6 +204,57 @@ func hasParamQuirk(e parser.Expr) bool {
 			}
 			inParam(p)
 		}
+		return nil
+	})
+	return found
+}
+
+// hasEmptyQuantileLabel reports a histogram_quantiles call whose label argument is the empty
+// string (finding histogram-quantiles-empty-label-name).
+func hasEmptyQuantileLabel(e parser.Expr) bool {
+	found := false
+	parser.Inspect(e, func(x parser.Node, _ []parser.Node) error {
+		if c, ok := x.(*parser.Call); ok && c.Func.Name == "histogram_quantiles" && len(c.Args) > 1 {
+			a := c.Args[1]
+			for {
+				pp, ok := a.(*parser.ParenExpr)
+				if !ok {
+					break
+				}
+				a = pp.Expr
+			}
+			if sl, ok := a.(*parser.StringLiteral); ok && sl.Val == "" {
+				found = true
+			}
+		}
+		return nil
+	})
+	return found
+}
+
+// hasBareExtendedMatrix reports an anchored/smoothed matrix selector that is not the argument of
+// a call, i.e. is evaluated by evaluator.matrixSelector (finding extended-matrix-selector-empty-window).
+func hasBareExtendedMatrix(e parser.Expr) bool {
+	found := false
+	parser.Inspect(e, func(x parser.Node, path []parser.Node) error {
+		ms, ok := x.(*parser.MatrixSelector)
+		if !ok {
+			return nil
+		}
+		vs, ok := ms.VectorSelector.(*parser.VectorSelector)
+		if !ok || !(vs.Anchored || vs.Smoothed) {
+			return nil
+		}
+		for i := len(path) - 1; i >= 0; i-- {
+			switch path[i].(type) {
+			case *parser.ParenExpr, *parser.StepInvariantExpr:
+				continue
+			case *parser.Call:
+				return nil
+			}
+			break
+		}
+		found = true
 		return nil
 	})
 	return found
